@@ -241,6 +241,10 @@ def earlier_simulation(queue):
             await (time + 1)
             for item in ('x', 'y', 'z'):
                 await queue.put(item)
+            # receivers that are forcefully closed while waiting when that simulation ends
+            scope.do(taker(1), volatile=True)
+            scope.do(taker(1), volatile=True)
+            await (time + 1)
     usim.run(main())
 
 
